@@ -249,6 +249,10 @@ ROUND8 = {'C03': ' Round 8: JacTriplet.clear_ijv with the name tuples of andes.s
 for _k, _v in ROUND8.items():
     ADDED[_k] = ADDED.get(_k, '') + _v
 
+ROUND8B = {'C01': ' PSS/E RAW record contracts (load, shunt, generator, branch) imported with a stub replay of the load record.', 'C02': ' Round 8: bounded in-process regeneration check (a System constructed again after an equation was edited runs the regenerated code).', 'C04': ' Round 8: TDS.init_resume imported (the first step of a resumed run is clamped to the end time and the next event).', 'C07': ' Round 8: nothing new was needed (the small-signal benchmark reported the change).', 'C10': ' Round 8: stub replay of DAE.request_address (both layouts, grid of sizes).', 'C11': ' Round 8: System.reset restores the input values of every model (no selection) with a native replay against the case file.', 'C16': ' Round 8: bounded fresh-process check with different string-hash seeds (bit-identical results).', 'C18': ' Round 8: bounded exhaustive RateLimiter.check_eq stand-in (each side under its own condition).', 'C19': ' Round 8: native replay of IdxParam.add (all spellings of one index are one device).', 'C09': ' Round 8: RateLimiter.check_eq stand-in shared with C18.', 'C14': ' System.reset replay shared with C11.'}
+for _k, _v in ROUND8B.items():
+    ADDED[_k] = ADDED.get(_k, '') + _v
+
 TECH_SUFFIX = ('; native replay of counter-models and of undecided obligations on the real code; bounded stand-ins are labelled and '
                'not counted')
 
